@@ -8,3 +8,11 @@ package utils
 //@   modifies everything
 //@   maypanic
 //@   ensures amount_positive: result2 == nil ==> result1 >= 1
+
+//@ func CopyURL
+//@   props C02 C06 C11
+//@   requires i != nil
+//@   ensures fresh_copy: result != nil && fresh(result)
+//@   ensures same_identity: result.Scheme == i.Scheme && result.Host == i.Host && result.Path == i.Path
+//@   ensures same_rest: result.RawPath == i.RawPath && result.RawQuery == i.RawQuery && result.Opaque == i.Opaque && result.Fragment == i.Fragment && result.ForceQuery == i.ForceQuery
+//@   ensures user_copied: (i.User == nil ==> result.User == nil) && (i.User != nil ==> result.User != nil && fresh(result.User))
